@@ -5,6 +5,7 @@ CONSTANTS
   Chain <- ChainT
   Head0 <- HeadT
   MaxCrash = 1
+  MaxTries = 3
   Known <- KnownAll
 INVARIANT C21Inv
 INVARIANT C22Inv
